@@ -120,6 +120,87 @@ Proof.
   assert (N.succ w <= w') by (apply (incr_ge _ _ _ H2); apply in_map with (f := fst) in Hin; exact Hin). lia.
 Qed.
 
+(* ------------------------------------------------------------------ groups of WAL segments *)
+Lemma seg_upto_refl m (x : list cver) : seg_upto m (m, x) = true.
+Proof. unfold seg_upto. cbn [fst]. lia. Qed.
+Lemma seg_upto_lt w m (x : list cver) : w < m -> seg_upto w (m, x) = false.
+Proof. unfold seg_upto. cbn [fst]. lia. Qed.
+
+Lemma wg_single w (a : list cver) : wal_groups [(w, a)] [(w, a)].
+Proof. cbn [wal_groups fst snd filter]. rewrite seg_upto_refl. cbn [negb flat_map snd]. rewrite app_nil_r. auto. Qed.
+
+Lemma wg_append mts : forall pre m old a vs,
+  (forall x, In x mts -> fst x < m) ->
+  wal_groups (pre ++ [(m, old)]) (mts ++ [(m, a)]) ->
+  wal_groups (pre ++ [(m, old ++ vs)]) (mts ++ [(m, a ++ vs)]).
+Proof.
+  induction mts as [|[w x] r IH]; intros pre m old a vs Hlt; cbn [app wal_groups fst snd]; rewrite !filter_app; cbn [filter].
+  - rewrite !seg_upto_refl. cbn [negb]. rewrite !flat_map_app. cbn [flat_map snd]. rewrite !app_nil_r.
+    intros [H1 H2]. split; [rewrite <- H1; apply app_assoc | exact H2].
+  - assert (w < m) as Hw by (apply (Hlt (w, x)); left; reflexivity).
+    rewrite !(seg_upto_lt w m) by exact Hw. cbn [negb]. rewrite !app_nil_r. intros [H1 H2]. split; [exact H1|].
+    apply IH; [|exact H2]. intros y Hy. apply Hlt. right. exact Hy.
+Qed.
+
+Lemma wg_snoc mts : forall wal m a w',
+  (forall x, In x mts -> fst x < m) -> m < w' ->
+  wal_groups wal (mts ++ [(m, a)]) -> wal_groups (wal ++ [(w', [])]) ((mts ++ [(m, a)]) ++ [(w', [])]).
+Proof.
+  induction mts as [|[w x] r IH]; intros wal m a w' Hlt Hm; cbn [app wal_groups fst snd]; rewrite !filter_app; cbn [filter].
+  - rewrite (seg_upto_lt m w') by exact Hm. cbn [negb]. rewrite app_nil_r. intros [H1 H2]. split; [exact H1|]. rewrite H2.
+    cbn [app filter]. rewrite seg_upto_refl. cbn [negb flat_map snd app]. auto.
+  - assert (w < m) as Hw by (apply (Hlt (w, x)); left; reflexivity).
+    rewrite (seg_upto_lt w w') by lia. cbn [negb]. rewrite app_nil_r. intros [H1 H2]. split; [exact H1|].
+    apply IH; [|exact Hm|exact H2]. intros y Hy. apply Hlt. right. exact Hy.
+Qed.
+
+Lemma wg_flush wal m r : wal_groups wal (m :: r) -> wal_groups (filter (fun e => N.leb (N.succ (fst m)) (fst e)) wal) r.
+Proof.
+  cbn [wal_groups]. intros [_ H]. erewrite filter_ext; [exact H|]. intros e. unfold seg_upto. cbn beta.
+  destruct (N.leb (fst e) (fst m)) eqn:E1; cbn [negb]; lia.
+Qed.
+
+Lemma incr_split lo w (wal : list (N * list cver)) : incr lo (map fst wal) ->
+  filter (seg_upto w) wal ++ filter (fun e => negb (seg_upto w e)) wal = wal.
+Proof.
+  revert lo. induction wal as [|[i a] r IH]; cbn [map fst incr filter]; [reflexivity|]. intros lo [H1 H2].
+  destruct (seg_upto w (i, a)) eqn:E; cbn [negb app]; [f_equal; exact (IH _ H2)|].
+  unfold seg_upto in E. cbn [fst] in E.
+  assert (forall e, In e r -> seg_upto w e = false) as Hall.
+  { intros e He. unfold seg_upto. assert (N.succ i <= fst e) by (apply (incr_ge _ _ _ H2); apply in_map; exact He). lia. }
+  replace (filter (seg_upto w) r) with (@nil (N * list cver)).
+  - cbn [app]. f_equal. clear -Hall. induction r as [|e r IH]; cbn [filter]; [reflexivity|].
+    rewrite (Hall e) by (left; reflexivity). cbn [negb]. f_equal. apply IH. intros e' He'. apply Hall. right. exact He'.
+  - clear -Hall. induction r as [|e r IH]; cbn [filter]; [reflexivity|].
+    rewrite (Hall e) by (left; reflexivity). apply IH. intros e' He'. apply Hall. right. exact He'.
+Qed.
+
+Lemma incr_filter_sub lo (p : N * list cver -> bool) wal : incr lo (map fst wal) -> incr lo (map fst (filter p wal)).
+Proof.
+  revert lo. induction wal as [|[i a] r IH]; cbn [map fst incr filter]; [tauto|]. intros lo [H1 H2].
+  destruct (p (i, a)); cbn [map fst incr].
+  - split; [exact H1 | exact (IH _ H2)].
+  - apply (incr_weaken (N.succ i)); [lia | exact (IH _ H2)].
+Qed.
+
+Lemma wg_flat mts : forall lo wal, incr lo (map fst wal) -> wal_groups wal mts -> flat_map snd wal = flat_map snd mts.
+Proof.
+  induction mts as [|m r IH]; intros lo wal Hi; cbn [wal_groups flat_map].
+  - intros ->. reflexivity.
+  - intros [H1 H2]. rewrite <- (incr_split lo (fst m) wal Hi) at 1. rewrite flat_map_app, H1. f_equal.
+    apply (IH lo); [apply incr_filter_sub; exact Hi | exact H2].
+Qed.
+
+(* segments at or above a bound, of an increasing list *)
+Lemma incr_filter_live lo b (wal : list (N * list cver)) : incr lo (map fst wal) -> incr b (map fst (filter (seg_live b) wal)).
+Proof.
+  revert lo. induction wal as [|[i a] r IH]; cbn [map fst incr filter]; [tauto|]. intros lo [H1 H2].
+  unfold seg_live at 1. cbn [fst]. destruct (N.leb b i) eqn:E; [|exact (IH _ H2)].
+  cbn [map fst incr]. split; [lia|]. 
+  assert (filter (seg_live b) r = r) as ->; [|exact H2].
+  apply (incr_filter_all b). apply (incr_weaken (N.succ i)); [lia | exact H2].
+Qed.
+
 (* ------------------------------------------------------------------ the cache *)
 Lemma ck_eqb_eq a b : ck_eqb a b = true <-> a = b.
 Proof.
@@ -328,7 +409,7 @@ Proof.
 Qed.
 
 (* ------------------------------------------------------------------ the invariant: the cache is invisible *)
-Ltac dinv H := destruct H as [Hmt Hml Hms Hmn Hh Hids Hplt Hpnf Hpnd Hc Hsl Hss Hst Hsm Hfl Hk Hw Hwc Hwi Hv Hck].
+Ltac dinv H := destruct H as [Hmt Hml Hms Hmn Hh Hids Hplt Hpnf Hpnd Hc Hsl Hss Hst Hsm Hfl Hk Hw Hwl Hiw Hwc Hwi Hv Hck].
 
 Lemma inv_coherent s : Inv s -> coherent (s_cache s) (d_tables (s_disk s)).
 Proof. intros H t i b Hg. exact (proj2 (proj2 (i_cache s H t i b Hg))). Qed.
@@ -388,6 +469,10 @@ Proof.
   { intros x Hx. rewrite Hstore in Hx. apply in_app_or in Hx. destruct Hx as [Hx|Hx].
     - specialize (Hss x Hx). lia.
     - apply number_seq in Hx. lia. }
+  destruct Hwl as [pre [old Hpre]].
+  assert (wal_append (m_wal (s_mem s)) (number (q_logseq (s_sq s)) b) (d_wal (s_disk s))
+          = pre ++ [(m_wal (s_mem s), old ++ number (q_logseq (s_sq s)) b)]) as Happ.
+  { rewrite Hpre. apply (wal_append_last (mf_log (m_man (s_mem s)))). rewrite <- Hpre. exact Hwi. }
   subst s'. constructor;
     cbn [s_disk s_mem s_cache s_sq s_orc s_view s_ckpts set_view set_orc set_sq set_mem set_disk d_tables d_man d_wal
          m_man m_active m_active_wal m_imms m_wal q_visible q_logseq q_floor o_kept opublish pending] in *;
@@ -395,10 +480,10 @@ Proof.
   - lia.
   - lia.
   - lia.
-  - rewrite Hw. rewrite Hwc. rewrite (wal_append_last (mf_log (m_man (s_mem s)))); [reflexivity|].
-    rewrite <- Hw. exact Hwi.
-  - rewrite Hw, Hwc. rewrite Hw in Hwi. rewrite (wal_append_last (mf_log (m_man (s_mem s)))) by exact Hwi.
-    rewrite map_app in *. exact Hwi.
+  - rewrite Happ. rewrite Hpre in Hw. rewrite Hwc in *. apply wg_append; [|exact Hw].
+    intros x Hx. apply in_map_iff in Hx. destruct Hx as [im [<- Hin]]. cbn [seg_of fst]. exact (Hiw im Hin).
+  - rewrite Happ. eauto.
+  - rewrite Happ. rewrite Hpre in Hwi. rewrite map_app in *. exact Hwi.
   - intros k. unfold kread_with. rewrite Hstore. rewrite pick_app.
     rewrite spec_get_batch. rewrite <- Hv. unfold kread_with.
     rewrite (pick_snap _ (q_visible (s_sq s))).
@@ -444,9 +529,13 @@ Proof.
   - intros t i b Hg. destruct (Hc t i b Hg) as [H1 [H2 H3]]. split; [exact H1|]. split; [|exact H3].
     rewrite map_app. cbn [map im_tid]. intros Hin. apply in_app_or in Hin. destruct Hin as [Hin|[Hin|[]]]; [tauto | lia].
   - intros x Hx. rewrite Hstore in Hx. exact (Hss x Hx).
-  - rewrite Hw. rewrite map_app. cbn [map seg_of im_wal im_vers]. rewrite <- !app_assoc. reflexivity.
+  - rewrite map_app. cbn [map seg_of]. simp_state. rewrite Hwc.
+    apply wg_snoc; [|simpl; lia|exact Hw].
+    intros x Hx. apply in_map_iff in Hx. destruct Hx as [im [<- Hin]]. cbn [seg_of fst]. exact (Hiw im Hin).
+  - eauto.
+  - intros im Hin. apply in_app_or in Hin. destruct Hin as [Hin|[<-|[]]]; [specialize (Hiw im Hin); lia | simp_state; lia].
   - reflexivity.
-  - rewrite Hw in *. rewrite Hwc. rewrite !map_app in *. cbn [map fst] in *. apply incr_snoc; [exact Hwi | lia].
+  - destruct Hwl as [pre [old Hpre]]. rewrite Hpre in *. rewrite !map_app in *. cbn [map fst] in *. apply incr_snoc; [exact Hwi | lia].
   - intros k. unfold kread_with. rewrite Hstore. exact (Hv k).
 Qed.
 
@@ -506,14 +595,12 @@ Proof.
   - assert (max_seq (im_vers im) <= q_visible (s_sq s)); [|lia]. apply nmax_le. intros y Hy.
     apply in_map_iff in Hy. destruct Hy as [x [<- Hx]]. apply Hss. unfold store_vers, mem_vers. simp_state. rewrite E.
     apply in_or_app. right. apply in_or_app. left. cbn [flat_map]. apply in_or_app. left. exact Hx.
-  - rewrite Hw in *. change (map seg_of (im :: rest)) with ((im_wal im, im_vers im) :: map seg_of rest) in *.
-    cbn [app filter fst map incr] in *. destruct Hwi as [Hw1 Hw2].
-    replace (N.leb (N.succ (im_wal im)) (im_wal im)) with false by lia.
-    apply incr_filter_all. exact Hw2.
-  - rewrite Hw in *. change (map seg_of (im :: rest)) with ((im_wal im, im_vers im) :: map seg_of rest) in *.
-    cbn [app filter fst map incr] in *. destruct Hwi as [Hw1 Hw2].
-    replace (N.leb (N.succ (im_wal im)) (im_wal im)) with false by lia.
-    rewrite incr_filter_all by exact Hw2. exact Hw2.
+  - exact (wg_flush _ (seg_of im) _ Hw).
+  - destruct Hwl as [pre [old Hpre]]. rewrite Hpre, filter_app. cbn [filter fst].
+    assert (im_wal im < m_active_wal (s_mem s)) by (apply Hiw; left; reflexivity).
+    replace (N.leb (N.succ (im_wal im)) (m_wal (s_mem s))) with true by lia. eauto.
+  - intros im0 Hin. apply Hiw. right. exact Hin.
+  - exact (incr_filter_live _ (N.succ (im_wal im)) _ Hwi).
   - intros k. unfold kread_with. rewrite Hstore. exact (Hv k).
 Qed.
 
@@ -705,13 +792,16 @@ Definition restored (ck : ckpt) (s : kstate) : kstate :=
 Lemma fold_step {A B} (f : A -> B -> A) x l a : fold_left f (x :: l) a = fold_left f l (f a x).
 Proof. reflexivity. Qed.
 
-Lemma restore_canon_eq ck s : d_wal (ck_disk ck) = [] -> restore_with canon_steps ck s = restored ck s.
+Lemma replayed_empty_seg lo w : replayed lo [(w, [])] = [].
+Proof. unfold replayed. cbn [filter]. destruct (seg_live lo (w, [])); reflexivity. Qed.
+
+Lemma restore_canon_eq bsz ck s : d_wal (ck_disk ck) = [] -> restore_with bsz canon_steps ck s = restored ck s.
 Proof.
   destruct ck as [[tabs man wal] view]. cbn [ck_disk d_wal]. intros ->.
   unfold restore_with, canon_steps, restored. cbn [ck_disk ck_view]. simp_state.
   do 5 (rewrite fold_step; cbn [rstep_apply ck_disk ck_view]; simp_state).
   rewrite fold_step; cbn [rstep_apply]; simp_state. cbn [nmax map]. rewrite N.max_0_r. unfold wal_ensure. cbn [aget app].
-  rewrite fold_step; cbn [rstep_apply]; simp_state. cbn [filter fst]. rewrite N.leb_refl. cbn [flat_map snd app].
+  rewrite fold_step; cbn [rstep_apply]; simp_state. rewrite replayed_empty_seg.
   rewrite fold_step; cbn [rstep_apply]; simp_state. cbn [nmax map fst]. rewrite N.max_0_r, N.max_id. unfold wal_ensure. cbn [aget].
   rewrite N.eqb_refl.
   rewrite fold_step; cbn [rstep_apply]; simp_state.
@@ -735,6 +825,9 @@ Proof.
   - intros t i b Hg. discriminate.
   - destruct (N.ltb 0 mx); [reflexivity | exact Hsl].
   - intros x Hx. rewrite app_nil_r in Hx. specialize (Ks x Hx). fold mx in Ks. lia.
+  - apply wg_single.
+  - exists [], []. reflexivity.
+  - intros im [].
   - cbn [fst incr]. split; [lia | exact I].
   - intros k. unfold kread_with, store_vers, mem_vers. simp_state. cbn [flat_map app]. rewrite app_nil_r. rewrite <- Kv. f_equal.
     apply pick_snap; intros x Hx; specialize (Ks x Hx); fold mx in Ks; fold mx; lia.
@@ -750,10 +843,10 @@ Definition opened (ck : ckpt) (cks : list (N * ckpt)) : kstate :=
      s_orc := {| o_recent := []; o_kept := 0 |};
      s_view := ck_view ck |}.
 
-Lemma open_ckpt_eq ck cks : d_wal (ck_disk ck) = [] -> open_ckpt ck cks = opened ck cks.
+Lemma open_ckpt_eq bsz ck cks : d_wal (ck_disk ck) = [] -> open_ckpt bsz ck cks = opened ck cks.
 Proof.
-  destruct ck as [[tabs man wal] view]. cbn [ck_disk d_wal]. intros ->. unfold open_ckpt, boot, opened. cbn [ck_disk ck_view]. simp_state.
-  cbn [filter flat_map map nmax max_seq]. rewrite !N.max_0_r. reflexivity.
+  destruct ck as [[tabs man wal] view]. cbn [ck_disk d_wal]. intros ->. unfold open_ckpt, boot, opened, replayed. cbn [ck_disk ck_view]. simp_state.
+  cbn [filter flat_map map nmax max_seq recover fst snd]. rewrite !N.max_0_r. unfold wal_ensure. cbn [aget app]. reflexivity.
 Qed.
 
 Lemma opened_inv ck cks : ckpt_ok ck -> (forall c ck', aget c cks = Some ck' -> ckpt_ok ck') -> Inv (opened ck cks).
@@ -765,6 +858,9 @@ Proof.
   - constructor.
   - intros t i b Hg. discriminate.
   - intros x Hx. rewrite app_nil_r in Hx. exact (Ks x Hx).
+  - apply wg_single.
+  - exists [], []. reflexivity.
+  - intros im [].
   - cbn [fst incr]. split; [lia | exact I].
   - intros k. unfold kread_with, store_vers, mem_vers. simp_state. cbn [flat_map app]. rewrite app_nil_r. exact (Kv k).
 Qed.
@@ -776,31 +872,199 @@ Proof.
   induction l as [|im r IH]; cbn [map flat_map seg_of snd]; [reflexivity|]. rewrite IH. reflexivity.
 Qed.
 
-Lemma boot_inv s c : Inv s -> (c = s_cache s \/ c = []) -> Inv (boot c (s_disk s) (s_ckpts s) (s_view s)).
+(* ---- recovery: every replayed segment but the last becomes a table ---- *)
+Lemma nmax_app l1 l2 : nmax (l1 ++ l2) = N.max (nmax l1) (nmax l2).
+Proof. induction l1 as [|x r IH]; cbn [app nmax]; [lia|]. rewrite IH. lia. Qed.
+Lemma max_seq_app a b : max_seq (a ++ b) = N.max (max_seq a) (max_seq b).
+Proof. unfold max_seq. rewrite map_app. apply nmax_app. Qed.
+
+Lemma incr_last_nmax lo (pre : list (N * list cver)) w a :
+  incr lo (map fst (pre ++ [(w, a)])) -> N.max lo (nmax (map fst (pre ++ [(w, a)]))) = w.
 Proof.
-  intros H Hcache. dinv H. unfold boot.
-  rewrite (incr_filter_all (mf_log (d_man (s_disk s))) (d_wal (s_disk s))) by (rewrite Hml; exact Hwi).
-  assert (flat_map snd (d_wal (s_disk s)) = mem_vers (s_mem s)) as Hall by (rewrite Hw; apply flat_map_segs).
+  intros Hi. rewrite map_app in *. cbn [map fst] in *. rewrite nmax_app. cbn [nmax].
+  assert (lo <= w) by (apply (incr_ge _ _ _ Hi); apply in_or_app; right; left; reflexivity).
+  assert (nmax (map fst pre) <= w); [|lia]. apply nmax_le. intros x Hx. assert (x < w) by exact (incr_snoc_lt _ _ _ _ Hi Hx). lia.
+Qed.
+
+Lemma flat_map_nonempty (l : list (N * list cver)) : flat_map snd (filter seg_nonempty l) = flat_map snd l.
+Proof.
+  induction l as [|[i a] r IH]; cbn [filter flat_map]; [reflexivity|]. unfold seg_nonempty at 1. cbn [snd].
+  destruct a; cbn [flat_map snd app]; rewrite IH; reflexivity.
+Qed.
+
+Lemma nonempty_none (p : N * list cver -> bool) l : filter seg_nonempty l = [] -> flat_map snd (filter p l) = [].
+Proof.
+  induction l as [|[i a] r IH]; cbn [filter]; [reflexivity|]. unfold seg_nonempty at 1. cbn [snd].
+  destruct a; [|discriminate]. intros E. destruct (p (i, [])); cbn [flat_map snd app]; exact (IH E).
+Qed.
+
+Lemma wg_one (wal : list (N * list cver)) w a : (forall e, In e wal -> fst e <= w) -> flat_map snd wal = a -> wal_groups wal [(w, a)].
+Proof.
+  intros Hle Hf. cbn [wal_groups fst snd].
+  assert (filter (seg_upto w) wal = wal /\ filter (fun e => negb (seg_upto w e)) wal = []) as [-> ->]; [|auto].
+  clear Hf. induction wal as [|e r IH]; cbn [filter]; [auto|].
+  assert (seg_upto w e = true) as -> by (unfold seg_upto; specialize (Hle e (or_introl eq_refl)); lia). cbn [negb].
+  destruct IH as [-> ->]; [intros e' He'; apply Hle; right; exact He' | auto].
+Qed.
+
+Section Recover.
+Variable bsz : nat.
+
+Definition tm_ok (ts : list (N * tfile)) (man : manifest) : Prop :=
+  (forall t nb, In (t, nb) (mf_tables man) -> exists f, aget t ts = Some f /\ length f = nb) /\
+  (forall t f, In (t, f) ts -> t < mf_next man) /\
+  (forall x, In x (tables_vers [] ts (mf_tables man)) -> cv_seq x <= mf_seq man).
+
+Lemma recov_flush_ok ts man e : tm_ok ts man ->
+  tm_ok (fst (recov_flush bsz (ts, man) e)) (snd (recov_flush bsz (ts, man) e)) /\
+  tables_vers [] (fst (recov_flush bsz (ts, man) e)) (mf_tables (snd (recov_flush bsz (ts, man) e)))
+    = tables_vers [] ts (mf_tables man) ++ snd e /\
+  (forall t, t < mf_next man -> aget t (fst (recov_flush bsz (ts, man) e)) = aget t ts).
+Proof.
+  intros [Hh [Hids Hst]]. unfold recov_flush. cbv zeta. cbn [fst snd]. cbn [mf_tables mf_next mf_seq].
+  set (f := mk_blocks bsz (snd e)).
+  assert (aget (mf_next man) ts = None) as Hnone.
+  { apply notin_aget_none. intros a Ha. specialize (Hids _ _ Ha). lia. }
+  assert (tables_vers [] (ts ++ [(mf_next man, f)]) (mf_tables man ++ [(mf_next man, length f)])
+          = tables_vers [] ts (mf_tables man) ++ snd e) as Htab.
+  { unfold tables_vers. rewrite flat_map_app. cbn [flat_map]. rewrite app_nil_r. f_equal.
+    - apply tables_vers_ext. intros [t nb] Hin. cbn [fst]. rewrite aget_app. destruct (Hh t nb Hin) as [f0 [Hf0 _]]. rewrite Hf0. reflexivity.
+    - rewrite (table_vers_file _ _ f); [apply chunk_concat|]. rewrite aget_app, Hnone. cbn [aget]. rewrite N.eqb_refl. reflexivity. }
+  split; [|split; [exact Htab|]].
+  - split; [|split]; cbn [mf_tables mf_next mf_seq].
+    + intros t nb Hin. apply in_app_or in Hin. rewrite aget_app. destruct Hin as [Hin|[Hin|[]]].
+      * destruct (Hh t nb Hin) as [f0 [Hf0 Hl]]. rewrite Hf0. eauto.
+      * inversion Hin; subst. rewrite Hnone. cbn [aget]. rewrite N.eqb_refl. eauto.
+    + intros t f0 Hin. apply in_app_or in Hin. destruct Hin as [Hin|[Hin|[]]].
+      * specialize (Hids _ _ Hin). cbn [mf_next]. lia.
+      * inversion Hin; subst. cbn [mf_next]. lia.
+    + intros x Hx. rewrite Htab in Hx. apply in_app_or in Hx. cbn [mf_seq]. destruct Hx as [Hx|Hx].
+      * specialize (Hst x Hx). lia.
+      * apply max_seq_ge in Hx. lia.
+  - intros t Ht. rewrite aget_app. destruct (aget t ts); [reflexivity|]. cbn [aget]. replace (N.eqb t (mf_next man)) with false by lia. reflexivity.
+Qed.
+
+Lemma recover_cons2 ts man e e2 r :
+  recover bsz ts man (e :: e2 :: r) = recover bsz (fst (recov_flush bsz (ts, man) e)) (snd (recov_flush bsz (ts, man) e)) (e2 :: r).
+Proof. reflexivity. Qed.
+
+Lemma recover_ok segs : forall ts man, tm_ok ts man ->
+  tm_ok (fst (fst (recover bsz ts man segs))) (snd (fst (recover bsz ts man segs))) /\
+  tables_vers [] (fst (fst (recover bsz ts man segs))) (mf_tables (snd (fst (recover bsz ts man segs)))) ++ snd (recover bsz ts man segs)
+    = tables_vers [] ts (mf_tables man) ++ flat_map snd segs /\
+  mf_next man <= mf_next (snd (fst (recover bsz ts man segs))) /\
+  (forall t, t < mf_next man -> aget t (fst (fst (recover bsz ts man segs))) = aget t ts) /\
+  mf_seq (snd (fst (recover bsz ts man segs))) <= N.max (mf_seq man) (max_seq (flat_map snd segs)).
+Proof.
+  induction segs as [|e r IH]; intros ts man Hok.
+  - cbn [recover fst snd flat_map]. rewrite !app_nil_r. repeat split; try apply Hok; try lia. 
+  - destruct r as [|e2 r'].
+    + cbn [recover fst snd flat_map]. rewrite !app_nil_r. repeat split; try apply Hok; try lia.
+    + rewrite recover_cons2. destruct (recov_flush_ok ts man e Hok) as [Hok1 [Htab1 Hag1]].
+      destruct (IH _ _ Hok1) as [I1 [I2 [I3 [I4 I5]]]].
+      assert (mf_next man <= mf_next (snd (recov_flush bsz (ts, man) e))) as Hn by (unfold recov_flush; cbn [snd mf_next]; lia).
+      assert (mf_seq (snd (recov_flush bsz (ts, man) e)) = N.max (mf_seq man) (max_seq (snd e))) as Hs by reflexivity.
+      split; [exact I1|]. split; [|split; [lia|split]].
+      * rewrite I2, Htab1. change (flat_map snd (e :: e2 :: r')) with (snd e ++ flat_map snd (e2 :: r')). rewrite app_assoc. reflexivity.
+      * intros t Ht. rewrite I4 by lia. apply Hag1. exact Ht.
+      * change (flat_map snd (e :: e2 :: r')) with (snd e ++ flat_map snd (e2 :: r')). rewrite max_seq_app. lia.
+Qed.
+
+Lemma filter_nonempty_nil i r : filter seg_nonempty ((i, []) :: r) = filter seg_nonempty r.
+Proof. reflexivity. Qed.
+Lemma filter_nonempty_cons i x a r : filter seg_nonempty ((i, x :: a) :: r) = (i, x :: a) :: filter seg_nonempty r.
+Proof. reflexivity. Qed.
+
+Lemma recover_log wal : forall lo ts man, incr lo (map fst wal) -> mf_log man <= lo ->
+  flat_map snd (filter (seg_live (mf_log (snd (fst (recover bsz ts man (filter seg_nonempty wal)))))) wal)
+    = snd (recover bsz ts man (filter seg_nonempty wal)) /\
+  mf_log man <= mf_log (snd (fst (recover bsz ts man (filter seg_nonempty wal)))) /\
+  mf_log (snd (fst (recover bsz ts man (filter seg_nonempty wal)))) <= N.max (mf_log man) (nmax (map fst wal)).
+Proof.
+  induction wal as [|[i a] r IH]; intros lo ts man Hi Hlo.
+  - cbn [filter recover fst snd flat_map map nmax]. repeat split; lia.
+  - cbn [map fst incr] in Hi. destruct Hi as [Hi1 Hi2].
+    destruct a as [|x a']; [rewrite !filter_nonempty_nil | rewrite !filter_nonempty_cons].
+    + destruct (IH (N.succ i) ts man Hi2 ltac:(lia)) as [J1 [J2 J3]]. cbn [map fst nmax].
+      split; [|split; [exact J2 | lia]].
+      cbn [filter]. match goal with |- context [seg_live ?l (i, [])] => destruct (seg_live l (i, [])) end; cbn [flat_map snd app]; exact J1.
+    + destruct (filter seg_nonempty r) as [|e2 r'] eqn:Er.
+      * cbn [recover fst snd]. cbn [map fst nmax]. split; [|split; lia].
+        cbn [filter]. unfold seg_live at 1. cbn [fst]. replace (N.leb (mf_log man) i) with true by lia. cbn [flat_map snd].
+        rewrite (nonempty_none _ r Er). apply app_nil_r.
+      * rewrite recover_cons2.
+        set (tm := recov_flush bsz (ts, man) (i, x :: a')).
+        assert (mf_log (snd tm) = N.succ i) as Hl by reflexivity.
+        destruct (IH (N.succ i) (fst tm) (snd tm) Hi2 ltac:(lia)) as [J1 [J2 J3]].
+        assert (N.succ i <= nmax (map fst r)) as Hn.
+        { assert (In e2 r) as Hin by (apply (proj1 (filter_In seg_nonempty e2 r)); rewrite Er; left; reflexivity).
+          apply (in_map fst) in Hin. assert (N.succ i <= fst e2) by exact (incr_ge _ _ _ Hi2 Hin).
+          assert (fst e2 <= nmax (map fst r)) by (apply nmax_ge; exact Hin). lia. }
+        cbn [map fst nmax]. split; [|split; lia].
+        cbn [filter]. unfold seg_live at 1. cbn [fst].
+        replace (N.leb (mf_log (snd (fst (recover bsz (fst tm) (snd tm) (e2 :: r'))))) i) with false by lia.
+        exact J1.
+Qed.
+
+Lemma boot_inv s c : Inv s -> (c = s_cache s \/ c = []) -> Inv (boot bsz c (s_disk s) (s_ckpts s) (s_view s)).
+Proof.
+  intros H Hcache. dinv H. unfold boot, replayed.
+  assert (filter (seg_live (mf_log (d_man (s_disk s)))) (d_wal (s_disk s)) = d_wal (s_disk s)) as Hlive
+    by (apply incr_filter_all; rewrite Hml; exact Hwi).
+  rewrite Hlive.
+  assert (flat_map snd (d_wal (s_disk s)) = mem_vers (s_mem s)) as Hall.
+  { unfold mem_vers. rewrite <- flat_map_segs with (w := m_active_wal (s_mem s)). exact (wg_flat _ _ _ Hwi Hw). }
   rewrite Hall.
+  assert (tm_ok (d_tables (s_disk s)) (d_man (s_disk s))) as Htm.
+  { split; [|split]; [rewrite Hmt; exact Hh | exact Hids | rewrite Hmt, Hms; exact Hst]. }
+  destruct (recover_ok (filter seg_nonempty (d_wal (s_disk s))) _ _ Htm) as [[Th [Ti Ts]] [Req [Rnext [Raget Rseq]]]].
+  rewrite flat_map_nonempty in Req, Rseq. rewrite Hall in Req, Rseq.
+  destruct (recover_log (d_wal (s_disk s)) (mf_log (m_man (s_mem s))) (d_tables (s_disk s)) (d_man (s_disk s)) Hwi ltac:(lia)) as [Lflat [Llo Lhi]].
+  destruct Hwl as [pre [old Hpre]].
+  assert (N.max (mf_log (d_man (s_disk s))) (nmax (map fst (d_wal (s_disk s)))) = m_wal (s_mem s)) as Hwmax.
+  { rewrite Hpre in Hwi |- *. rewrite Hml. exact (incr_last_nmax _ _ _ _ Hwi). }
+  rewrite Hwmax in *.
+  set (r := recover bsz (d_tables (s_disk s)) (d_man (s_disk s)) (filter seg_nonempty (d_wal (s_disk s)))) in *.
+  assert (filter (seg_live (mf_log (snd (fst r)))) (d_wal (s_disk s))
+          = filter (seg_live (mf_log (snd (fst r)))) pre ++ [(m_wal (s_mem s), old)]) as Hlast.
+  { rewrite Hpre at 1. rewrite filter_app. cbn [filter]. unfold seg_live at 2. cbn [fst].
+    replace (N.leb (mf_log (snd (fst r))) (m_wal (s_mem s))) with true by lia. reflexivity. }
+  assert (wal_ensure (m_wal (s_mem s)) (filter (seg_live (mf_log (snd (fst r)))) (d_wal (s_disk s)))
+          = filter (seg_live (mf_log (snd (fst r)))) (d_wal (s_disk s))) as Hens.
+  { rewrite Hlast. unfold wal_ensure. rewrite aget_app. destruct (aget _ _); [reflexivity|]. cbn [aget]. rewrite N.eqb_refl. reflexivity. }
+  rewrite Hens.
   constructor; unfold pending, store_vers in *; simp_state; cbn [map flat_map app] in *; try assumption; try reflexivity; try lia.
-  - rewrite Hmt. exact Hh.
   - intros im [].
   - intros im f [].
   - constructor.
-  - intros t i b Hg. destruct Hcache as [->| ->]; [|discriminate]. destruct (Hc t i b Hg) as [H1 [H2 H3]]. repeat split; [exact H1 | tauto | exact H3].
-  - intros x Hx. unfold mem_vers at 1 in Hx. simp_state. cbn [flat_map app] in Hx. apply in_app_or in Hx. destruct Hx as [Hx|Hx].
-    + rewrite Hmt in Hx. specialize (Hst x Hx). rewrite Hms. etransitivity; [exact Hst | apply N.le_max_l].
+  - intros t i b Hg. destruct Hcache as [->| ->]; [|discriminate]. destruct (Hc t i b Hg) as [H1 [H2 H3]].
+    split; [lia|]. split; [tauto|]. intros f. rewrite Raget by exact H1. apply H3.
+  - intros x Hx. unfold mem_vers at 1 in Hx. simp_state. cbn [flat_map app] in Hx. rewrite Req in Hx.
+    apply in_app_or in Hx. destruct Hx as [Hx|Hx].
+    + rewrite Hmt in Hx. specialize (Hst x Hx). lia.
     + apply max_seq_ge in Hx. lia.
-  - rewrite Hmt, Hms. exact Hst.
-  - cbn [fst incr]. split; [lia | exact I].
-  - intros k. unfold kread_with, store_vers. simp_state. unfold mem_vers at 1. simp_state. cbn [flat_map app].
-    rewrite <- Hv. unfold kread_with, store_vers. rewrite Hmt. f_equal. apply pick_snap.
-    + intros x Hx. rewrite Hms. apply in_app_or in Hx. destruct Hx as [Hx|Hx]; [specialize (Hst x Hx); lia | apply max_seq_ge in Hx; eapply N.le_trans; [exact Hx | apply N.le_max_r]].
+  - apply wg_one; [|exact Lflat]. intros e He. apply filter_In in He. destruct He as [He _].
+    apply (in_map fst) in He. apply nmax_ge in He. lia.
+  - rewrite Hlast. eauto.
+  - intros im [].
+  - exact (incr_filter_live _ _ _ Hwi).
+  - intros k. unfold kread_with, store_vers. simp_state.
+    change (mem_vers {| m_man := snd (fst r); m_active := snd r; m_active_wal := m_wal (s_mem s); m_imms := []; m_wal := m_wal (s_mem s) |})
+      with (snd r).
+    rewrite Req. rewrite <- Hv. unfold kread_with, store_vers. rewrite Hmt. f_equal. apply pick_snap.
+    + intros x Hx. apply in_app_or in Hx. destruct Hx as [Hx|Hx]; [specialize (Hst x Hx); lia | apply max_seq_ge in Hx; lia].
     + intros x Hx. apply Hss. unfold store_vers. exact Hx.
 Qed.
 
-Lemma reopen_inv keep s : Inv s -> Inv (reopen keep s).
+Lemma reopen_inv keep s : Inv s -> Inv (reopen bsz keep s).
 Proof. intros H. unfold reopen. apply boot_inv; [exact H|]. destruct keep; auto. Qed.
+End Recover.
+
+Lemma kinit_boot bsz : boot bsz [] empty_disk [] [] = kinit.
+Proof.
+  unfold boot, kinit, empty_disk, replayed. simp_state. cbn [filter flat_map map nmax max_seq recover fst snd]. rewrite !N.max_0_r.
+  unfold wal_ensure. cbn [aget app]. reflexivity.
+Qed.
 
 (* ------------------------------------------------------------------ checkpoint *)
 Lemma ckpt_copy_ok c s : Inv s -> m_imms (s_mem s) = [] -> m_active (s_mem s) = [] ->
@@ -861,7 +1125,7 @@ Proof. induction ops as [|o r IH]; intros s H; cbn [krun]; [exact H|]. apply IH.
 
 Lemma init_inv : Inv kinit.
 Proof.
-  unfold kinit, boot, empty_disk. simp_state. cbn [filter flat_map map nmax max_seq]. rewrite !N.max_0_r.
+  unfold kinit, empty_disk. simp_state.
   constructor; unfold pending, store_vers, mem_vers, tables_vers; simp_state; cbn [map flat_map app]; try reflexivity; try lia.
   - intros t nb [].
   - intros t f [].
@@ -871,6 +1135,9 @@ Proof.
   - intros t i b Hg. discriminate.
   - intros x [].
   - intros x [].
+  - apply wg_single.
+  - exists [], []. reflexivity.
+  - intros im [].
   - cbn [fst incr]. split; [lia | exact I].
   - intros c ck Hg. discriminate.
 Qed.
@@ -1032,7 +1299,7 @@ Theorem checkpoint_content_canon :
     let s0 := runc ops0 kinit in
     let s2 := runc ops1 (checkpoint bsz c s0) in
     exists ck, aget c (s_ckpts s2) = Some ck /\
-      let o := open_ckpt ck (s_ckpts s2) in
+      let o := open_ckpt bsz ck (s_ckpts s2) in
       Inv o /\ forall k snap, q_visible (s_sq o) <= snap -> kread o snap k = view_get (s_view s0) k.
 Proof.
   intros ops0 c ops1 Hn s0 s2. destruct (checkpoint_found c ops0 ops1 Hn) as [H2 [ck [Hg [Hok Hv]]]].
@@ -1077,7 +1344,7 @@ Theorem post_restore_canon :
     let s := runc ops0 kinit in
     aget c (s_ckpts s) = Some ck ->
     (0 < mf_seq (d_man (ck_disk ck)) \/ q_visible (s_sq s) = 0) ->
-    kouts bsz canon_steps ops (fst (stepc s (OpRestore c))) = kouts bsz canon_steps ops (open_ckpt ck (s_ckpts s)).
+    kouts bsz canon_steps ops (fst (stepc s (OpRestore c))) = kouts bsz canon_steps ops (open_ckpt bsz ck (s_ckpts s)).
 Proof.
   intros ops0 c ck ops s Hg Hne. assert (Inv s) as H by (apply run_inv; apply init_inv).
   assert (Hok := i_ckpts s H c ck Hg). cbn [kstep]. rewrite Hg. cbn [fst].
